@@ -715,6 +715,107 @@ func keOracle(r *rand.Rand, n int, tier string, infile string) (cases int, fails
 			bad("C03 a party holding only key 3 brought a responder to usable with the victim's key 0 as its remote key")
 		}
 	}
+	// C02: concurrent Sends on one session (the Session type is exported and used by several goroutines of a swarm):
+	// no two ciphertexts under the same key and counter, and the peer accepts every one of them exactly once.
+	concurrentSendCase := func() {
+		cases++
+		I, R := newSess(true, 0, 1), newSess(false, 1, 2)
+		var toR, toI []byte = I.Handshake(nil), nil
+		for k := 0; k < 4 && !(I.IsReady() && R.IsReady()); k++ {
+			if len(toR) > 0 {
+				_, toI, _ = R.Deliver(nil, toR, now)
+			}
+			toR = nil
+			if len(toI) > 0 {
+				_, toR, _ = I.Deliver(nil, toI, now)
+			}
+			toI = nil
+		}
+		if !I.IsReady() || !R.IsReady() {
+			return
+		}
+		const workers, each = 8, 150
+		outs := make([][][]byte, workers)
+		var wg sync.WaitGroup
+		for w := 0; w < workers; w++ {
+			w := w
+			wg.Add(1)
+			go func() {
+				defer wg.Done()
+				for k := 0; k < each; k++ {
+					out, err := I.Send(nil, []byte(fmt.Sprintf("w%d-%d", w, k)), now)
+					if err == nil {
+						outs[w] = append(outs[w], out)
+					}
+				}
+			}()
+		}
+		wg.Wait()
+		seenCtr := map[uint32]bool{}
+		dups, delivered, total := 0, 0, 0
+		for _, ws := range outs {
+			for _, m := range ws {
+				total++
+				c := binary.BigEndian.Uint32(m)
+				if seenCtr[c] {
+					dups++
+				}
+				seenCtr[c] = true
+				if isApp, _, err := R.Deliver(nil, m, now); err == nil && isApp {
+					delivered++
+				}
+			}
+		}
+		if dups > 0 || delivered != total {
+			bad("C02 %d goroutines sending on one session: %d of %d ciphertexts re-used a counter another ciphertext of the session already carried, and the peer accepted %d of %d", workers, dups, total, delivered, total)
+		}
+	}
+	// C03: signed material of one handshake replayed in another. The adversary (no victim key) first runs handshake A
+	// as a raw Noise initiator towards the victim V (an honest responder) and so obtains V's RespHello payload: V's key
+	// and V's signature over the channel binding OF HANDSHAKE A. It then answers an honest initiator's InitHello as a
+	// raw Noise responder with its own ephemeral and that payload. The signature is V's, but not over this handshake.
+	sigReplayCase := func() {
+		cases++
+		suite := noise.NewCipherSuite(noise.DH25519, noise.CipherChaChaPoly, noise.HashBLAKE2b)
+		adv := newSess(true, 3, 1)
+		ahello := adv.Handshake(nil) // the adversary's own (valid) hello claim
+		hsA, err := noise.NewHandshakeState(noise.Config{Initiator: true, Pattern: noise.HandshakeNN, CipherSuite: suite})
+		if err != nil || len(ahello) < 36 {
+			return
+		}
+		m1, _, _, err := hsA.WriteMessage([]byte{0, 0, 0, 0}, ahello[36:])
+		if err != nil {
+			return
+		}
+		V := newSess(false, 0, 2)
+		_, rhA, err := V.Deliver(nil, m1, now)
+		if err != nil || len(rhA) < 4 {
+			return
+		}
+		payloadA, _, _, err := hsA.ReadMessage(nil, rhA[4:])
+		if err != nil {
+			forgerBroken++
+			return
+		}
+		I := newSess(true, 1, 3)
+		ih := I.Handshake(nil)
+		hsB, err := noise.NewHandshakeState(noise.Config{Initiator: false, Pattern: noise.HandshakeNN, CipherSuite: suite})
+		if err != nil || len(ih) < 4 {
+			return
+		}
+		if _, _, _, err := hsB.ReadMessage(nil, ih[4:]); err != nil {
+			forgerBroken++
+			return
+		}
+		rhB, _, _, err := hsB.WriteMessage([]byte{0, 0, 0, 1}, payloadA)
+		if err != nil {
+			return
+		}
+		_, _, derr := I.Deliver(nil, rhB, now)
+		if keyIndex(I.RemoteKey()) == "0" && (derr == nil || I.IsReady() || I.VerifCanSend() || I.VerifCanReceive() || I.VerifHsIndex() >= 2) {
+			bad("C03 an initiator took key 0 as its peer (hsIndex %d, canSend=%v, Deliver err=%v) from a RespHello that carries key 0's signature over the channel binding of ANOTHER handshake, presented by a party without key 0", I.VerifHsIndex(), I.VerifCanSend(), derr)
+		}
+	}
 	// C03: a liar. A real Session whose registry marshals the VICTIM's public key wherever its own belongs, while it
 	// signs with its own private key (key 3): every claim it makes (InitHello time-stamp claim, RespHello and InitDone
 	// channel-binding signatures) is well-formed, names the victim and carries a signature the victim never made.
@@ -1095,6 +1196,8 @@ func keOracle(r *rand.Rand, n int, tier string, infile string) (cases int, fails
 			lateRekeyCase()
 			overtakeCase()
 			liarCase()
+			sigReplayCase()
+			concurrentSendCase()
 			rekeyHijackCase()
 		}
 	}
